@@ -167,6 +167,7 @@ func VerifC14RangeLayout() {
 		"[(3,2)-(5,10)]", "[(3, 2)-(5, 10)]", "[(3,2) - (5,10)]", "(3,2)-(5,10)", "3,2-5,10",
 		"[(03,02)-(05,010)]", "[(3,2)-(5,10)] ", " [(3,2)-(5,10)]", "[(3,2)-(5,10)]#frag",
 		"[(123456,0)-(123457,99999)]", "[(0,0)-(0,0)]", "3 2 5 10",
+		"[(2147483648,0)-(2147483649,9)]", "[(3,4)-(5,123456789012)]", "[(18446744073709551616,1)-(340282366920938463463374607431768211456,2)]",
 	}
 	text := layouts[v.Choice("layout", len(layouts))]
 	id := "http://x/n1"
